@@ -360,6 +360,9 @@ func (e *diskEngine) sweepNode(w *World, n *Node, st *State, dc *DiskCase, stats
 			if only != nil && only.Arg != mode {
 				continue
 			}
+			if only != nil && only.Arg >= 6 {
+				break
+			}
 			cr := newChunkReader(data, mode, seed^uint64(mode))
 			inst, c2, err, pan := e.restore(n, seed, cr)
 			stats.Faults["chunked_restore"]++
@@ -379,6 +382,37 @@ func (e *diskEngine) sweepNode(w *World, n *Node, st *State, dc *DiskCase, stats
 					report(n, fmt.Sprintf("restore-diff/chunk%d", mode), fmt.Sprintf("restored instance differs from the original (reader mode %d): %s", mode, d), fl)
 				}
 				stats.OracleChecks["disk_restore_equal"]++
+			}
+		}
+	}
+	// (i') the stream followed by other data (a second record in the same file):
+	// restore must take exactly its own bytes from the reader
+	if want("chunk") && (only == nil || only.Arg >= 6) {
+		trailer := make([]byte, 0, len(data)+48)
+		trailer = append(trailer, data...)
+		for i := 0; i < 48; i++ {
+			trailer = append(trailer, byte(mix64(seed^uint64(i))))
+		}
+		withTrailer := append(append([]byte(nil), data...), trailer...)
+		for _, mode := range []int{0, 3} {
+			if only != nil && only.Arg != 6+mode {
+				continue
+			}
+			fl := DiskFault{Node: n.idx, Kind: "chunk", Arg: 6 + mode}
+			cr := newChunkReader(withTrailer, mode, seed^uint64(mode)^0x7a11)
+			inst, c2, err, pan := e.restore(n, seed, cr)
+			stats.Faults["restore_with_trailing_data"]++
+			switch {
+			case pan || err != nil:
+				report(n, "restore-err/trailer", fmt.Sprintf("restoring a stream that is followed by other data failed (reader mode %d): %v", mode, err), fl)
+			case c2 != int64(len(data)):
+				report(n, "read-count", fmt.Sprintf("restore reported %d bytes consumed, its stream has %d (followed by %d bytes of other data)", c2, len(data), len(trailer)), fl)
+			case cr.off != len(data):
+				report(n, "read-overconsumed", fmt.Sprintf("restore reported %d bytes but took %d bytes from the reader (the stream is followed by other data)", c2, cr.off), fl)
+			default:
+				if d := diffObs(base, e.observe(inst, n, st, seed)); d != "" {
+					report(n, "restore-diff/trailer", "restored instance differs from the original when the stream is followed by other data: "+d, fl)
+				}
 			}
 		}
 	}
